@@ -28,6 +28,8 @@ T_UNGRET = '(ung * str)'
 TINFO_ATTRS = {
     'full_name': ('ti_full_name', T_STR),
     'root_namespace': ('ti_root_ns', T_STR),
+    'full_namespace': ('ti_full_namespace', T_STR),
+    'has_parent_service': ('ti_has_parent', T_BOOL),
 }
 
 
@@ -141,6 +143,13 @@ class HtmlTr(pyfun_tr.Tr):
                         return '(skipn %d %s)' % (const(lo), sv), T_STR
                     if const(lo) is not None and const(hi) is not None and const(lo) <= const(hi):
                         return '(firstn %d (skipn %d %s))' % (const(hi) - const(lo), const(lo), sv), T_STR
+        if isinstance(e, ast.IfExp):
+            c, tc = self.expr(e.test, env)
+            a, ta = self.expr(e.body, env)
+            b, tb = self.expr(e.orelse, env)
+            if tc != T_BOOL or ta != tb:
+                raise Unsupported('conditional expression of types %s ? %s : %s' % (tc, ta, tb))
+            return '(if %s then %s else %s)' % (c, a, b), ta
         if isinstance(e, ast.BinOp) and isinstance(e.op, ast.Add):
             a, ta = self.expr(e.left, env)
             b, tb = self.expr(e.right, env)
@@ -299,6 +308,37 @@ def template_data(root: str) -> typing.Tuple[str, typing.List[dict]]:
     return names, sinks
 
 
+def links_up_prefix(root: str) -> bool:
+    """does type_info.j2 prefix the type URL with the `up` parameter that Namespace.j2 computes from the page depth?
+    Exactly two shapes are recognised (the pinned one and the one of design_notes/C20_links_fix.patch)."""
+    def read(n):
+        with open(os.path.join(root, n), encoding='utf-8') as f:
+            return f.read()
+    ti, ni, nsp = read('type_info.j2'), read('namespace_info.j2'), read('Namespace.j2')
+    hrefs = re.findall(r'href="([^"]*url_from_type[^"]*)"', ti)
+    if len(hrefs) != 1:
+        raise Unsupported('type_info.j2: expected exactly one href built with url_from_type')
+    h = re.sub(r'\s+', '', hrefs[0])
+    calls = [re.sub(r'\s+', '', c) for c in re.findall(r'\{\{\s*(generate_(?:type|namespace)_info\(.*?\))\s*\}\}', ti + ni + nsp)]
+    if h == '{{t|url_from_type}}':
+        if any(c.endswith(',up)') for c in calls) or 'up=' in ti:
+            raise Unsupported('`up` is passed around but not used in the type link')
+        return False
+    if h == '{{up}}{{t|url_from_type}}':
+        want_ti = 'generate_type_info(t,attr_name,nested=False,up="")'
+        if want_ti not in re.sub(r'\s+', '', ti) or 'generate_namespace_info(t,up="")' not in re.sub(r'\s+', '', ni):
+            raise Unsupported('macro signatures do not carry `up` as the model expects')
+        for c in calls:
+            if c == "generate_namespace_info(T,'../'*T.full_name.count('.'))":
+                continue
+            if not c.endswith(',up)'):
+                raise Unsupported('call %s does not pass `up` on' % c)
+        if "generate_namespace_info(T,'../'*T.full_name.count('.'))" not in calls:
+            raise Unsupported('Namespace.j2 does not compute `up` from the depth of T')
+        return True
+    raise Unsupported('type link of an unrecognised shape: %s' % hrefs[0])
+
+
 def gen_html() -> typing.Tuple[bool, str]:
     out_path = os.path.join(gen.GEN_DIR, 'Gen_Html.v')
     head = (gen.HEADER % 'src/nunavut/lang/html/__init__.py, jinja/markupsafe/_native.py, jinja/environment.py, jinja/jinja2/utils.py, '
@@ -315,6 +355,8 @@ def gen_html() -> typing.Tuple[bool, str]:
                                         ung=True, skip_params=('_',)))
         parts.append(translate_namespace_doc(html_mod))
         parts.append(autoescape_data(envt, utl))
+        parts.append('Definition links_up_prefix : bool := %s.  (* type_info.j2 prefixes type links with the page depth *)'
+                     % ('true' if links_up_prefix(os.path.join(gen.REPO, 'src/nunavut/lang/html/templates')) else 'false'))
         names, sinks = template_data(os.path.join(gen.REPO, 'src/nunavut/lang/html/templates'))
         parts.append('Definition html_template_names : list str := [\n  %s].' % ';\n  '.join('%s (* %s *)' % (_s(n), n) for n in names))
         # documentation sinks: (template, escaped?) -- the model's page builder takes one flag per template
@@ -341,3 +383,740 @@ def gen_html() -> typing.Tuple[bool, str]:
 
 
 GENERATORS = {'html': gen_html}
+
+
+# =============================================================================================================
+# Template skeletons and output sites  ->  coq/theories/Generated/Gen_HtmlSkel.v   (generator 'htmlskel')
+#
+# Every *.j2 under lang/html/templates is lexed (Jinja segments), its literal data is run through an HTML state
+# machine (text / inside a tag / raw-text element / comment) and the Jinja control structure is kept as a tree:
+#   KOpen n | KClose n | KVoid n | KText | KSite i | KIf alternatives | KFor body | KCall key
+# (key = "file" for a template included with {% include %}, "file:macro" for a macro).  Each `{{ expr }}` is parsed
+# with a precedence-faithful expression parser (filters bind tighter than every operator, as in jinja2/parser.py),
+# classified, and recorded with its template, line and HTML context.  Fail closed on anything not classified:
+# control statements inside a tag / comment, statements other than macro/if/for/set/from-import/include, an output
+# inside a comment or in an unquoted tag position, assets that contain the end tag of the raw-text element they are
+# included into, expression syntax outside the supported grammar.
+# =============================================================================================================
+VOID_ELEMENTS = {'hr', 'input', 'br', 'meta', 'link', 'img', 'area', 'base', 'col', 'embed', 'source', 'track', 'wbr'}
+RAW_ELEMENTS = {'script': 2, 'style': 3, 'title': 4, 'textarea': 4}
+CTX_TEXT, CTX_ATTR = 0, 1
+CLS = {'const': 0, 'numeric': 1, 'ident': 2, 'escaped': 3, 'markup': 4, 'dsdl_text': 8, 'unknown': 9}
+ESC_FILTERS = {'e', 'escape', 'forceescape'}
+IDENT_FILTERS = {'tag_id', 'url_from_type'}
+NUM_FILTERS = {'extent', 'max_bit_length', 'length', 'count', 'int', 'float', 'round', 'abs'}
+KEEP_FILTERS = {'lower', 'upper', 'trim', 'string', 'capitalize', 'title'}
+IDENT_ATTRS = {'full_name', 'full_namespace', 'short_name', 'name', 'root_namespace', 'element_type'}
+NUM_ATTRS = {'fixed_port_id', 'capacity', 'extent', 'major', 'minor'}
+TOKEN_RE = re.compile(r'''\s*(?:(?P<str>'(?:[^'\\]|\\.)*'|"(?:[^"\\]|\\.)*")|(?P<num>\d+(?:\.\d+)?)|(?P<name>[A-Za-z_][A-Za-z0-9_]*)|'''
+                      r'''(?P<op>==|!=|<=|>=|//|\*\*|[|.()\[\],+\-*/%<>=:~]))''')
+KEYWORDS = {'if', 'else', 'or', 'and', 'not', 'is', 'in'}
+
+
+def jtokens(src: str) -> typing.List[typing.Tuple[str, str]]:
+    out, pos = [], 0
+    src = src.strip()
+    while pos < len(src):
+        m = TOKEN_RE.match(src, pos)
+        if not m or m.end() == pos:
+            raise Unsupported('expression token at %r' % src[pos:pos + 20])
+        pos = m.end()
+        for k in ('str', 'num', 'name', 'op'):
+            if m.group(k) is not None:
+                out.append((k, m.group(k)))
+                break
+    return out
+
+
+class JParser:
+    """jinja2/parser.py precedence: cond < or < and < not < compare < +- < ~ < */ //% < ** < unary < postfix, filter, test"""
+
+    def __init__(self, src: str):
+        self.t = jtokens(src)
+        self.i = 0
+
+    def peek(self, k=0):
+        return self.t[self.i + k] if self.i + k < len(self.t) else ('eof', '')
+
+    def eat(self, kind=None, val=None):
+        tk = self.peek()
+        if (kind and tk[0] != kind) or (val is not None and tk[1] != val):
+            raise Unsupported('expression syntax: expected %s %s, got %r' % (kind, val, tk))
+        self.i += 1
+        return tk
+
+    def at(self, val):
+        return self.peek()[1] == val and self.peek()[0] in ('op', 'name')
+
+    def parse(self):
+        e = self.cond()
+        if self.peek()[0] != 'eof':
+            raise Unsupported('expression syntax: trailing %r' % (self.peek(),))
+        return e
+
+    def cond(self):
+        a = self.or_()
+        if self.at('if'):
+            self.eat()
+            c = self.or_()
+            b = None
+            if self.at('else'):
+                self.eat()
+                b = self.cond()
+            return ('cond', c, a, b)
+        return a
+
+    def or_(self):
+        a = self.and_()
+        while self.at('or'):
+            self.eat()
+            a = ('bool', 'or', a, self.and_())
+        return a
+
+    def and_(self):
+        a = self.not_()
+        while self.at('and'):
+            self.eat()
+            a = ('bool', 'and', a, self.not_())
+        return a
+
+    def not_(self):
+        if self.at('not'):
+            self.eat()
+            return ('not', self.not_())
+        return self.compare()
+
+    def compare(self):
+        a = self.math1()
+        while True:
+            if self.peek()[0] == 'op' and self.peek()[1] in ('==', '!=', '<', '<=', '>', '>='):
+                self.eat()
+                a = ('cmp', a, self.math1())
+            elif self.at('in'):
+                self.eat()
+                a = ('cmp', a, self.math1())
+            elif self.at('not') and self.peek(1)[1] == 'in':
+                self.eat()
+                self.eat()
+                a = ('cmp', a, self.math1())
+            else:
+                return a
+
+    def math1(self):
+        a = self.concat()
+        while self.peek()[0] == 'op' and self.peek()[1] in ('+', '-'):
+            op = self.eat()[1]
+            a = ('arith', op, a, self.concat())
+        return a
+
+    def concat(self):
+        a = self.math2()
+        while self.peek() == ('op', '~'):
+            self.eat()
+            a = ('arith', '~', a, self.math2())
+        return a
+
+    def math2(self):
+        a = self.pow()
+        while self.peek()[0] == 'op' and self.peek()[1] in ('*', '/', '//', '%'):
+            op = self.eat()[1]
+            a = ('arith', op, a, self.pow())
+        return a
+
+    def pow(self):
+        a = self.unary()
+        while self.peek() == ('op', '**'):
+            self.eat()
+            a = ('arith', '**', a, self.unary())
+        return a
+
+    def unary(self, with_filter=True):
+        if self.peek()[0] == 'op' and self.peek()[1] in ('-', '+'):
+            self.eat()
+            node = ('neg', self.unary(False))
+        else:
+            node = self.primary()
+        node = self.postfix(node)
+        if with_filter:
+            node = self.filters(node)
+        return node
+
+    def primary(self):
+        k, v = self.peek()
+        if k == 'str':
+            self.eat()
+            return ('const', ast.literal_eval(v))
+        if k == 'num':
+            self.eat()
+            return ('const', float(v) if '.' in v else int(v))
+        if k == 'name':
+            if v in KEYWORDS:
+                raise Unsupported('expression syntax: keyword %s' % v)
+            self.eat()
+            if v in ('true', 'True', 'false', 'False', 'none', 'None'):
+                return ('const', 0)
+            return ('name', v)
+        if (k, v) == ('op', '('):
+            self.eat()
+            e = self.cond()
+            self.eat('op', ')')
+            return e
+        raise Unsupported('expression syntax: primary %r' % ((k, v),))
+
+    def args(self):
+        pos, kw = [], {}
+        self.eat('op', '(')
+        while self.peek() != ('op', ')'):
+            if self.peek()[0] == 'name' and self.peek(1) == ('op', '='):
+                n = self.eat()[1]
+                self.eat()
+                kw[n] = self.cond()
+            else:
+                pos.append(self.cond())
+            if self.peek() == ('op', ','):
+                self.eat()
+        self.eat('op', ')')
+        return pos, kw
+
+    def postfix(self, node):
+        while True:
+            if self.peek() == ('op', '.'):
+                self.eat()
+                node = ('attr', node, self.eat('name')[1])
+            elif self.peek() == ('op', '['):
+                self.eat()
+                idx = self.cond()
+                self.eat('op', ']')
+                node = ('item', node, idx)
+            elif self.peek() == ('op', '('):
+                pos, kw = self.args()
+                node = ('call', node, pos, kw)
+            else:
+                return node
+
+    def filters(self, node):
+        while True:
+            if self.peek() == ('op', '|'):
+                self.eat()
+                name = self.eat('name')[1]
+                while self.peek() == ('op', '.'):
+                    self.eat()
+                    name += '.' + self.eat('name')[1]
+                pos, kw = ([], {})
+                if self.peek() == ('op', '('):
+                    pos, kw = self.args()
+                node = ('filter', name, node, pos, kw)
+            elif self.at('is'):
+                self.eat()
+                if self.at('not'):
+                    self.eat()
+                self.eat('name')
+                if self.peek() == ('op', '('):
+                    self.args()
+                elif self.peek()[0] in ('str', 'num') or (self.peek()[0] == 'name' and self.peek()[1] not in KEYWORDS):
+                    self.primary()
+                node = ('test', node)
+            else:
+                return node
+
+
+def jparse(src: str):
+    return JParser(src).parse()
+
+
+def _find_end(text: str, pos: int, end: str) -> int:
+    """index of the closing delimiter of a Jinja tag starting (after the opener) at pos; quoted strings are skipped"""
+    i = pos
+    while i < len(text):
+        c = text[i]
+        if c in '"\'':
+            j = i + 1
+            while j < len(text) and text[j] != c:
+                j += 2 if text[j] == '\\' else 1
+            i = j + 1
+            continue
+        if text.startswith(end, i) or (text[i] == '-' and text.startswith(end, i + 1)):
+            return i
+        i += 1
+    raise Unsupported('unterminated Jinja tag')
+
+
+def jsegments(text: str):
+    out, pos, line = [], 0, 1
+    opener = re.compile(r'\{\{|\{%|\{#')
+    while True:
+        m = opener.search(text, pos)
+        if not m:
+            if pos < len(text):
+                out.append(('data', text[pos:], line))
+            return out
+        if m.start() > pos:
+            out.append(('data', text[pos:m.start()], line))
+            line += text.count('\n', pos, m.start())
+        kind = {'{{': ('out', '}}'), '{%': ('stmt', '%}'), '{#': ('comment', '#}')}[m.group(0)]
+        if kind[0] == 'comment':
+            j = text.find('#}', m.end())
+            if j < 0:
+                raise Unsupported('unterminated Jinja comment')
+            endpos = j + 2
+            body = ''
+        else:
+            j = _find_end(text, m.end(), kind[1])
+            body = text[m.end():j].strip('-').strip() if text[m.end():j][:1] == '-' else text[m.end():j].strip()
+            if body.startswith('+'):
+                body = body[1:].strip()
+            endpos = j + (3 if text[j] == '-' else 2)
+        out.append((kind[0], body, line))
+        line += text.count('\n', m.start(), endpos)
+        pos = endpos
+
+
+class TemplateScan:
+    def __init__(self, root: str, rel: str, sites: list):
+        self.root, self.rel, self.sites = root, rel, sites
+        self.mode = 'text'            # text | tag | raw | comment | decl
+        self.tag = None               # dict while inside a tag
+        self.raw = None
+        self.frames = [{'kind': 'top', 'nodes': []}]
+        self.macros: typing.Dict[str, dict] = {}
+        self.imports: typing.Dict[str, str] = {}
+        self.sets: typing.Dict[str, list] = {}
+        self.outs: typing.List[dict] = []
+        self.cur_macro: typing.Optional[str] = None
+
+    # ---- skeleton nodes ----
+    def emit(self, node):
+        nodes = self.frames[-1]['nodes'] if self.frames[-1]['kind'] != 'if' else self.frames[-1]['alts'][-1]
+        if node == ('text',) and nodes and nodes[-1] == ('text',):
+            return
+        nodes.append(node)
+
+    # ---- literal data through the HTML state machine ----
+    def data(self, s: str):
+        i, n = 0, len(s)
+        while i < n:
+            if self.mode == 'text':
+                j = s.find('<', i)
+                if j < 0:
+                    if s[i:].strip():
+                        self.emit(('text',))
+                    return
+                if s[i:j].strip():
+                    self.emit(('text',))
+                rest = s[j + 1:]
+                if rest == '' or rest == '/' or (rest[:1] == '!' and len(rest) < 3):
+                    raise Unsupported('%s: literal data ends inside "<": cannot classify' % self.rel)
+                if rest.startswith('!--'):
+                    self.mode = 'comment'
+                    i = j + 4
+                elif rest[0].isalpha() and rest[0].isascii():
+                    self.mode, self.tag = 'tag', {'closing': False, 'name': '', 'named': False, 'quote': None, 'slash': False}
+                    i = j + 1
+                elif rest[0] == '/' and rest[1:2].isalpha():
+                    self.mode, self.tag = 'tag', {'closing': True, 'name': '', 'named': False, 'quote': None, 'slash': False}
+                    i = j + 2
+                elif rest[0] in '!?/':
+                    self.mode = 'decl'
+                    i = j + 1
+                else:
+                    self.emit(('text',))
+                    i = j + 1
+            elif self.mode == 'comment':
+                j = s.find('-->', i)
+                if j < 0:
+                    return
+                self.mode = 'text'
+                i = j + 3
+            elif self.mode == 'decl':
+                j = s.find('>', i)
+                if j < 0:
+                    return
+                self.mode = 'text'
+                i = j + 1
+            elif self.mode == 'raw':
+                m = re.compile(r'</%s(?=[\s>/])' % self.raw, re.I).search(s, i)
+                if not m:
+                    return
+                self.mode, self.tag = 'tag', {'closing': True, 'name': '', 'named': False, 'quote': None, 'slash': False}
+                self.raw = None
+                i = m.start() + 2
+            else:  # tag
+                t = self.tag
+                c = s[i]
+                i += 1
+                if not t['named']:
+                    if c.isalnum() or c in '-:':
+                        t['name'] += c
+                        continue
+                    t['named'] = True
+                if t['quote']:
+                    if c == t['quote']:
+                        t['quote'] = None
+                    continue
+                if c in '"\'':
+                    t['quote'] = c
+                elif c == '/':
+                    t['slash'] = True
+                elif c == '>':
+                    self.end_tag()
+                elif not c.isspace():
+                    t['slash'] = False
+
+    def end_tag(self):
+        t = self.tag
+        name = t['name'].lower()
+        self.mode, self.tag = 'text', None
+        if not name:
+            raise Unsupported('%s: tag without a name' % self.rel)
+        if t['closing']:
+            if name in VOID_ELEMENTS:
+                raise Unsupported('%s: end tag of void element %s' % (self.rel, name))
+            self.emit(('close', name))
+        elif name in VOID_ELEMENTS:
+            self.emit(('void', name))
+        else:
+            if t['slash']:
+                raise Unsupported('%s: self-closing non-void element %s' % (self.rel, name))
+            self.emit(('open', name))
+            if name in RAW_ELEMENTS:
+                self.mode, self.raw = 'raw', name
+
+    # ---- Jinja ----
+    def need_text(self, what: str):
+        if self.mode != 'text':
+            raise Unsupported('%s: {%% %s %%} inside %s: cannot classify' % (self.rel, what, self.mode))
+
+    def stmt(self, body: str, line: int):
+        m = re.match(r'(\w+)\s*(.*)$', body, re.S)
+        if not m:
+            raise Unsupported('%s:%d: empty statement' % (self.rel, line))
+        kw, rest = m.group(1), m.group(2).strip()
+        if kw == 'include':
+            mm = re.fullmatch(r'''(['"])([^'"]+)\1''', rest)
+            if not mm:
+                raise Unsupported('%s:%d: include of a non-constant name' % (self.rel, line))
+            name = mm.group(2)
+            if name.endswith('.j2'):
+                self.need_text('include')
+                self.emit(('call', name))
+            else:
+                if self.mode != 'raw' or self.raw not in ('script', 'style'):
+                    raise Unsupported('%s:%d: asset %s included outside <script>/<style>' % (self.rel, line, name))
+                with open(os.path.join(self.root, name), encoding='utf-8', errors='replace') as f:
+                    asset = f.read()
+                if re.search(r'</%s' % self.raw, asset, re.I) or '{{' in asset and False:
+                    raise Unsupported('%s:%d: asset %s contains </%s' % (self.rel, line, name, self.raw))
+                self.emit(('text',))
+            return
+        if kw == 'set':
+            mm = re.match(r'([A-Za-z_]\w*)\s*=\s*(.*)$', rest, re.S)
+            if not mm:
+                raise Unsupported('%s:%d: block or tuple form of set' % (self.rel, line))
+            if self.mode not in ('text',):
+                raise Unsupported('%s:%d: set inside %s' % (self.rel, line, self.mode))
+            self.sets.setdefault(mm.group(1), []).append((self.cur_macro, jparse(mm.group(2))))
+            return
+        if kw == 'from':
+            mm = re.fullmatch(r'''(['"])([^'"]+)\1\s+import\s+(.*?)(\s+with(out)?\s+context)?''', rest, re.S)
+            if not mm:
+                raise Unsupported('%s:%d: from-import form' % (self.rel, line))
+            for nm in mm.group(3).split(','):
+                nm = nm.strip()
+                if not re.fullmatch(r'[A-Za-z_]\w*', nm):
+                    raise Unsupported('%s:%d: import alias' % (self.rel, line))
+                self.imports[nm] = '%s:%s' % (mm.group(2), nm)
+            return
+        self.need_text(kw)
+        if kw == 'macro':
+            mm = re.fullmatch(r'([A-Za-z_]\w*)\s*(\(.*\))', rest, re.S)
+            if not mm or len(self.frames) != 1:
+                raise Unsupported('%s:%d: macro form / nested macro' % (self.rel, line))
+            p = JParser('f' + mm.group(2))
+            call = p.parse()
+            params = []
+            for a in call[2]:
+                if a[0] != 'name':
+                    raise Unsupported('%s:%d: macro parameter' % (self.rel, line))
+                params.append((a[1], None))
+            for k, v in call[3].items():
+                params.append((k, v))
+            self.cur_macro = mm.group(1)
+            self.frames.append({'kind': 'macro', 'name': mm.group(1), 'params': params, 'nodes': []})
+        elif kw == 'endmacro':
+            fr = self.frames.pop()
+            if fr['kind'] != 'macro':
+                raise Unsupported('%s:%d: endmacro' % (self.rel, line))
+            self.macros[fr['name']] = fr
+            self.cur_macro = None
+        elif kw == 'if':
+            self.frames.append({'kind': 'if', 'alts': [[]], 'else': False})
+        elif kw in ('elif', 'else'):
+            fr = self.frames[-1]
+            if fr['kind'] != 'if' or fr['else']:
+                raise Unsupported('%s:%d: %s outside if (for-else is not supported)' % (self.rel, line, kw))
+            fr['else'] = kw == 'else'
+            fr['alts'].append([])
+        elif kw == 'endif':
+            fr = self.frames.pop()
+            if fr['kind'] != 'if':
+                raise Unsupported('%s:%d: endif' % (self.rel, line))
+            if not fr['else']:
+                fr['alts'].append([])
+            self.emit(('if', fr['alts']))
+        elif kw == 'for':
+            if ' recursive' in rest:
+                raise Unsupported('%s:%d: recursive loop' % (self.rel, line))
+            self.frames.append({'kind': 'for', 'nodes': []})
+        elif kw == 'endfor':
+            fr = self.frames.pop()
+            if fr['kind'] != 'for':
+                raise Unsupported('%s:%d: endfor' % (self.rel, line))
+            self.emit(('for', fr['nodes']))
+        else:
+            raise Unsupported('%s:%d: statement {%% %s %%} is outside the supported subset' % (self.rel, line, kw))
+
+    def out(self, body: str, line: int):
+        e = jparse(body)
+        if self.mode == 'text':
+            ctx = CTX_TEXT
+        elif self.mode == 'tag':
+            if not self.tag['quote']:
+                raise Unsupported('%s:%d: output in an unquoted tag position' % (self.rel, line))
+            ctx = CTX_ATTR
+        elif self.mode == 'raw':
+            ctx = RAW_ELEMENTS[self.raw]
+        else:
+            raise Unsupported('%s:%d: output inside %s' % (self.rel, line, self.mode))
+        rec = {'rel': self.rel, 'line': line, 'ctx': ctx, 'expr': e, 'src': ' '.join(body.split()), 'macro': self.cur_macro}
+        self.outs.append(rec)
+        if ctx == CTX_TEXT:
+            self.emit(('out', rec))
+
+    def run(self):
+        with open(os.path.join(self.root, self.rel), encoding='utf-8') as f:
+            text = f.read()
+        for kind, body, line in jsegments(text):
+            if kind == 'data':
+                self.data(body)
+            elif kind == 'stmt':
+                self.stmt(body, line)
+            elif kind == 'out':
+                self.out(body, line)
+        if len(self.frames) != 1 or self.mode != 'text':
+            raise Unsupported('%s: ends inside %s / an open block' % (self.rel, self.mode))
+        return self
+
+
+def _safe_const(v) -> bool:
+    return not isinstance(v, str) or not any(c in v for c in '<>&"\'')
+
+
+class Classifier:
+    def __init__(self, scans: typing.Dict[str, TemplateScan]):
+        self.scans = scans
+        self.calls: typing.Dict[str, list] = {}     # macro key -> [(caller scan, caller macro, pos args, kw args)]
+        self.busy: set = set()
+        for sc in scans.values():
+            for o in sc.outs:
+                self._collect(sc, o['macro'], o['expr'])
+
+    def key_of(self, sc: TemplateScan, name: str) -> typing.Optional[str]:
+        if name in sc.macros:
+            return '%s:%s' % (sc.rel, name)
+        return sc.imports.get(name)
+
+    def _collect(self, sc, macro, e):
+        if not isinstance(e, tuple):
+            return
+        if e[0] == 'call' and e[1][0] == 'name' and self.key_of(sc, e[1][1]):
+            self.calls.setdefault(self.key_of(sc, e[1][1]), []).append((sc, macro, e[2], e[3]))
+        for x in e[1:]:
+            if isinstance(x, tuple):
+                self._collect(sc, macro, x)
+            elif isinstance(x, list):
+                for y in x:
+                    self._collect(sc, macro, y)
+            elif isinstance(x, dict):
+                for y in x.values():
+                    self._collect(sc, macro, y)
+
+    @staticmethod
+    def join(*cs) -> str:
+        order = ['const', 'numeric', 'ident', 'escaped', 'markup', 'dsdl_text', 'unknown']
+        return max(cs, key=order.index) if cs else 'const'
+
+    def name_cls(self, sc: TemplateScan, macro, name: str) -> str:
+        tok = (sc.rel, macro, name)
+        if tok in self.busy:
+            return 'const'
+        self.busy.add(tok)
+        try:
+            parts = []
+            if macro and name in dict(sc.macros[macro]['params']) if macro in sc.macros else False:
+                params = sc.macros[macro]['params']
+                idx = [p for p, _ in params].index(name)
+                dflt = params[idx][1]
+                if dflt is not None:
+                    parts.append(self.cls(sc, macro, dflt))
+                for csc, cmacro, pos, kw in self.calls.get('%s:%s' % (sc.rel, macro), []):
+                    if idx < len(pos):
+                        parts.append(self.cls(csc, cmacro, pos[idx]))
+                    elif name in kw:
+                        parts.append(self.cls(csc, cmacro, kw[name]))
+                    elif dflt is None:
+                        parts.append('unknown')
+            for m2, rhs in sc.sets.get(name, []):
+                if m2 == macro:
+                    parts.append(self.cls(sc, macro, rhs))
+            if not parts:
+                return 'ident' if name == 'T' else 'unknown'
+            return self.join(*parts)
+        finally:
+            self.busy.discard(tok)
+
+    def cls(self, sc: TemplateScan, macro, e) -> str:
+        k = e[0]
+        if k == 'const':
+            return ('numeric' if not isinstance(e[1], str) else 'const') if _safe_const(e[1]) else 'unknown'
+        if k == 'name':
+            return self.name_cls(sc, macro, e[1])
+        if k == 'cond':
+            return self.join(self.cls(sc, macro, e[2]), self.cls(sc, macro, e[3]) if e[3] is not None else 'const')
+        if k == 'bool':
+            return self.join(self.cls(sc, macro, e[2]), self.cls(sc, macro, e[3]))
+        if k in ('not', 'cmp', 'test'):
+            return 'const'
+        if k == 'neg':
+            return self.join('numeric', self.cls(sc, macro, e[1]))
+        if k == 'arith':
+            return self.join('numeric' if e[1] not in ('~', '*', '+') else 'const', self.cls(sc, macro, e[2]), self.cls(sc, macro, e[3]))
+        if k == 'attr':
+            if e[2] == 'doc':
+                return 'dsdl_text'
+            if e[2] in IDENT_ATTRS:
+                return 'ident'
+            if e[2] in NUM_ATTRS:
+                return 'numeric'
+            return 'unknown'
+        if k == 'item':
+            if e[1][0] == 'attr' and e[1][2] == 'version' and e[2][0] == 'const':
+                return 'numeric'
+            return 'unknown'
+        if k == 'call':
+            f = e[1]
+            if f[0] == 'attr' and f[2] == 'replace' and all(a[0] == 'const' and _safe_const(a[1]) for a in e[2]) and not e[3]:
+                return self.cls(sc, macro, f[1])
+            if f[0] == 'attr' and f[2] in ('count', 'index', 'find'):
+                return 'numeric'
+            return 'unknown'
+        if k == 'filter':
+            name = e[1]
+            if name in ESC_FILTERS or name == 'make_unique':
+                return 'escaped'
+            if name in IDENT_FILTERS:
+                return 'ident'
+            if name in NUM_FILTERS:
+                return 'numeric'
+            if name == 'display_type':
+                return 'markup'
+            if name == 'namespace_doc':
+                return 'dsdl_text'
+            if name in KEEP_FILTERS:
+                return self.cls(sc, macro, e[2])
+            return 'unknown'
+        return 'unknown'
+
+
+def _coq_skl(nodes: list, sites: list, sc: TemplateScan, cl: Classifier) -> str:
+    out = 'SNil'
+    for nd in reversed(nodes):
+        k = nd[0]
+        if k == 'open':
+            h = 'KOpen %s' % _s(nd[1])
+        elif k == 'close':
+            h = 'KClose %s' % _s(nd[1])
+        elif k == 'void':
+            h = 'KVoid %s' % _s(nd[1])
+        elif k == 'text':
+            h = 'KText'
+        elif k == 'call':
+            h = 'KCall %s' % _s(nd[1])
+        elif k == 'for':
+            h = 'KFor (%s)' % _coq_skl(nd[1], sites, sc, cl)
+        elif k == 'if':
+            alts = 'ANone'
+            for a in reversed(nd[1]):
+                alts = 'AAlt (%s) (%s)' % (_coq_skl(a, sites, sc, cl), alts)
+            h = 'KIf (%s)' % alts
+        elif k == 'out':
+            rec = nd[1]
+            e = rec['expr']
+            key = cl.key_of(sc, e[1][1]) if e[0] == 'call' and e[1][0] == 'name' else None
+            if key:
+                h = 'KCall %s' % _s(key)
+            else:
+                h = 'KSite %d' % rec['index']
+        else:
+            raise Unsupported('node %r' % (nd,))
+        out = 'SCons (%s) (%s)' % (h, out)
+    return out
+
+
+def gen_htmlskel() -> typing.Tuple[bool, str]:
+    out_path = os.path.join(gen.GEN_DIR, 'Gen_HtmlSkel.v')
+    head = (gen.HEADER % 'src/nunavut/lang/html/templates/**/*.j2 (and the assets they include)'
+            + 'From Verif Require Import HtmlSkelBase.\nOpen Scope N_scope.\n\n')
+    root = os.path.join(gen.REPO, 'src/nunavut/lang/html/templates')
+    try:
+        rels = []
+        for d, _, fs in os.walk(root):
+            for f in sorted(fs):
+                if f.endswith('.j2'):
+                    rels.append(os.path.relpath(os.path.join(d, f), root).replace(os.sep, '/'))
+        rels.sort()
+        sites: list = []
+        scans = {rel: TemplateScan(root, rel, sites).run() for rel in rels}
+        cl = Classifier(scans)
+        # output sites that are not macro calls get an index and a class
+        table = []
+        for rel in rels:
+            sc = scans[rel]
+            for o in sc.outs:
+                e = o['expr']
+                if e[0] == 'call' and e[1][0] == 'name' and cl.key_of(sc, e[1][1]):
+                    if o['ctx'] != CTX_TEXT:
+                        raise Unsupported('%s:%d: macro call outside a text position' % (rel, o['line']))
+                    continue
+                o['index'] = len(table)
+                o['cls'] = cl.cls(sc, o['macro'], e)
+                table.append(o)
+        entries = []
+        for rel in rels:
+            sc = scans[rel]
+            entries.append((rel, _coq_skl(sc.frames[0]['nodes'], table, sc, cl)))
+            for name, fr in sc.macros.items():
+                entries.append(('%s:%s' % (rel, name), _coq_skl(fr['nodes'], table, sc, cl)))
+        # every call target must be in the table
+        keys = {k for k, _ in entries}
+        for k, body in entries:
+            for m in re.finditer(r'KCall \(\[([0-9; ]*)\]%N : str\)', body):
+                tgt = ''.join(chr(int(x)) for x in m.group(1).split(';') if x.strip())
+                if tgt not in keys:
+                    raise Unsupported('%s calls/includes %s which is not a scanned template or macro' % (k, tgt))
+        parts = ['Definition html_sites : list site := [\n  %s].' % ';\n  '.join(
+            '{| st_template := %s; st_line := %d; st_ctx := %d; st_cls := %d |} (* %d %s:%d %s : %s *)'
+            % (_s(o['rel']), o['line'], o['ctx'], CLS[o['cls']], o['index'], o['rel'], o['line'], o['cls'],
+               o['src'].replace('*)', '* )').replace('(*', '( *').replace('"', "''"))
+            for o in table)]
+        parts.append('Definition html_skeletons : list (str * skl) := [\n  %s].' % ';\n  '.join(
+            '(%s (* %s *),\n   %s)' % (_s(k), k, body) for k, body in entries))
+        parts.append('Definition html_entry_templates : list str := [%s].' % '; '.join(
+            _s(r) for r in rels if r[:1].isupper()))
+    except (Unsupported, SyntaxError, OSError, ValueError, KeyError, IndexError) as ex:
+        gen.write_if_changed(out_path, head + '(* translator failed closed: %s *)\n' % str(ex).replace('*)', '* )'))
+        return False, 'template skeleton scanner failed closed: %s' % ex
+    gen.write_if_changed(out_path, head + '\n\n'.join(parts) + '\n')
+    return True, 'ok (%d templates, %d skeletons, %d output sites)' % (len(rels), len(entries), len(table))
+
+
+GENERATORS['htmlskel'] = gen_htmlskel
